@@ -21,6 +21,7 @@ type Oblig struct {
 	Pos    token.Position
 	Cover  bool // must be SAT (vacuity check)
 	Canary bool // deliberately false clause: must be refuted (SAT); never assumed
+	Explicit bool // postcondition clause with explicit property tags: assumed only by later clauses that share a tag
 	NoAssume bool // obligation listed as a known finding (of any property): never assumed afterwards
 	Detail string
 	// result
@@ -169,6 +170,7 @@ func (s *Session) script(want func(*Oblig) bool, timeoutMs int, cvc bool) (strin
 	} else {
 		fmt.Fprintf(&b, "(set-option :timeout %d)\n", timeoutMs)
 	}
+	var guarded []*Oblig
 	for _, it := range s.Items {
 		if it.Ob == nil {
 			b.WriteString(it.Text)
@@ -178,6 +180,11 @@ func (s *Session) script(want func(*Oblig) bool, timeoutMs int, cvc bool) (strin
 		ob := it.Ob
 		if want == nil || want(ob) {
 			b.WriteString("(push 1)\n")
+			for _, g := range guarded {
+				if usesGuarded(ob, g) {
+					fmt.Fprintf(&b, "(assert g!%d)\n", g.Index)
+				}
+			}
 			fmt.Fprintf(&b, "(assert %s)\n", ob.Reach)
 			if !ob.Cover {
 				fmt.Fprintf(&b, "(assert (not %s))\n", ob.Goal)
@@ -191,7 +198,14 @@ func (s *Session) script(want func(*Oblig) bool, timeoutMs int, cvc bool) (strin
 			order = append(order, ob)
 		}
 		if !ob.Cover && !ob.Canary && !ob.NoAssume {
-			b.WriteString("(assert " + implies(ob.Reach, ob.Goal) + ")\n")
+			if ob.Explicit {
+				// a clause that belongs to specific properties is a lemma only for clauses of those properties:
+				// a change that breaks it must not make the clauses of other properties vacuous
+				fmt.Fprintf(&b, "(declare-const g!%d Bool)\n(assert (=> g!%d %s))\n", ob.Index, ob.Index, implies(ob.Reach, ob.Goal))
+				guarded = append(guarded, ob)
+			} else {
+				b.WriteString("(assert " + implies(ob.Reach, ob.Goal) + ")\n")
+			}
 		}
 	}
 	return b.String(), order
@@ -221,7 +235,7 @@ func (s *Session) standalone(target *Oblig, cvc bool, model bool) string {
 			}
 			return b.String()
 		}
-		if !ob.Cover && !ob.Canary && !ob.NoAssume {
+		if !ob.Cover && !ob.Canary && !ob.NoAssume && (!ob.Explicit || usesGuarded(target, ob)) {
 			b.WriteString("(assert " + implies(ob.Reach, ob.Goal) + ")\n")
 		}
 	}
@@ -235,4 +249,20 @@ func sortedKeys[V any](m map[string]V) []string {
 	}
 	sort.Strings(ks)
 	return ks
+}
+
+// usesGuarded: may obligation ob use the explicitly tagged postcondition clause g as a hypothesis?
+// Yes unless ob is itself an explicitly tagged clause and shares no property tag with g.
+func usesGuarded(ob, g *Oblig) bool {
+	if !ob.Explicit {
+		return true
+	}
+	for _, a := range ob.Tags {
+		for _, b := range g.Tags {
+			if a == b {
+				return true
+			}
+		}
+	}
+	return false
 }
